@@ -2,7 +2,7 @@ INIT Init
 NEXT Next
 CONSTANTS
   Shards <- MCShards1
-  Secs = {7, 8}
+  Secs = {7}
   Lens = {0, 1, 3}
   HeaderSize = 20
   MagicLen = 4
@@ -14,7 +14,7 @@ CONSTANTS
   AllowCorrupt = TRUE
   MaxPuts = 4
   MaxRestarts = 3
-  MaxOps = 7
+  MaxOps = 6
 VIEW View
 INVARIANTS RereadExact TailOrder GetExact IdsUnique SizesMatch ErasedFileDeleted RefCounts KnownPointsAtRecord DiskOrdered
 CHECK_DEADLOCK FALSE
